@@ -277,6 +277,16 @@ for _pid, _s in _LATE.items():
     _l, _t, _x, _n = CLAIMED[_pid]
     CLAIMED[_pid] = (_l, _t, _x + _s, _n)
 
+# refinements of round 10 (DESIGN.md 9.12)
+_R10 = {
+ "C03": " Statements that print alike and mean something else (integer / integral-float twins) are handed to different links of one chain.",
+ "C09": " Strings of up to 4 pieces out of 1..4-byte characters and bytes that are no character are sliced by 13 selectors through Select and Match: never a crash.",
+ "C11": " Law L3 of TracePolicy.tla: the answers on a datum whose quantified list of records (fields read through optional selectors) is in the opposite order are the same.",
+}
+for _pid, _s in _R10.items():
+    _l, _t, _x, _n = CLAIMED[_pid]
+    CLAIMED[_pid] = (_l, _t, _x + _s, _n)
+
 NOT_YET = "check not built yet in this session (work in progress; see DESIGN.md section 3 for the planned model)"
 
 checks, na = [], []
